@@ -35,7 +35,7 @@ from core import Eval
 
 PROPERTY = "C07"
 DRIVER = "drv_c07"
-PROPS = ["PartituraModel.Props.C07"]
+PROPS = ["PartituraModel.Props.C07", "PartituraModel.Props.C07Codecs"]
 TRUSTED = [
     "Python `re` for the pattern sub-language of the match modules (literals, named groups over "
     "[^,] . [0-9,] [a-z,] [^)] with + or *): leftmost match, greedy quantifiers with backtracking - "
@@ -103,6 +103,23 @@ V1KIND = {"info": ("info", "scoreprop"), "meta": ("scoreprop",), "snote_note": (
           "deletion": ("deletion",), "trailing_score": ("deletion",), "no_played": ("deletion",),
           "insertion": ("insertion",), "hammer_bounce": ("insertion",), "trailing_played": ("insertion",),
           "trill": ("ornament",), "sustain": ("sustain",), "soft": ("soft",)}
+
+
+def ws(x):
+    """percent-encoded string token (ASCII-only variant of wire.s; `encS` of Driver/C07.lean)"""
+    x = str(x)
+    if x == "":
+        return "%"
+    out = []
+    for ch in x:
+        if (ch.isascii() and ch.isalnum()) or ch in "_.#:+=<>!?@^&*;'\"|~`$":
+            out.append(ch)
+        elif ord(ch) < 256:
+            out.append("%%%02x" % ord(ch))
+        else:
+            raise ValueError("non-latin1 char in wire string")
+    r = "".join(out)
+    return "%2d" if r == "-" else r
 
 
 def tplname(kind, ver):
@@ -192,7 +209,7 @@ def canon(x):
             return "nan"
         return "D" + W.q(Fraction(repr(x)))
     if isinstance(x, str):
-        return "S" + W.s(x)
+        return "S" + ws(x)
     if isinstance(x, U.FractionalSymbolicDuration):
         ac = x.add_components
         return "F(%d,%d,%s,%s)" % (
@@ -205,7 +222,7 @@ def canon(x):
     if isinstance(x, U.MatchTimeSignature):
         return "T(%d,%d,[%s])" % (int(x.numerator), int(x.denominator), ",".join(canon(o) for o in x.other_components))
     if isinstance(x, U.MatchTempoIndication):
-        return "P" + W.s(x.value)
+        return "P" + ws(x.value)
     if isinstance(x, (list, tuple)):
         return "[" + ",".join(canon(v) for v in x) + "]"
     return "?" + type(x).__name__
@@ -245,7 +262,7 @@ def wire_val(x):
     if isinstance(x, (float, np.floating)):
         return ["D", W.q(Fraction(repr(float(x))))]
     if isinstance(x, str):
-        return ["S", W.s(x)]
+        return ["S", ws(x)]
     if isinstance(x, U.FractionalSymbolicDuration):
         return ["F"] + wire_frac(x)
     if isinstance(x, U.MatchKeySignature):
@@ -259,12 +276,12 @@ def wire_val(x):
             t += wire_frac(o)
         return t
     if isinstance(x, U.MatchTempoIndication):
-        return ["P", W.s(x.value)]
+        return ["P", ws(x.value)]
     if isinstance(x, (list, tuple)):
         if all(isinstance(v, (int, np.integer)) for v in x) and len(x) > 0:
             return ["J", "%d" % len(x)] + ["%d" % int(v) for v in x]
         if all(isinstance(v, str) for v in x):
-            return ["L", "%d" % len(x)] + [W.s(v) for v in x]
+            return ["L", "%d" % len(x)] + [ws(v) for v in x]
     raise ValueError("no wire form for %r" % (x,))
 
 
@@ -274,6 +291,8 @@ def model_ok_value(x):
     if isinstance(x, U.FractionalSymbolicDuration):
         if int(x.numerator) > 1024 or int(x.denominator) > 1024:
             return False
+        if x.add_components is not None and not fold_fits(x.add_components):
+            return False  # re-reading the sum runs into bound_integers (binary64 approximation)
         return all(c[0] <= 1024 and c[1] <= 1024 for c in (x.add_components or []))
     if isinstance(x, U.MatchTimeSignature):
         return all(model_ok_value(o) for o in x.other_components)
@@ -432,6 +451,22 @@ def values_equal(a, b):
         return False
 
 
+def rational_total(obj, name, a, b):
+    """versions < 0.3.0 write durations as one rational ("a/b"): an additive duration whose total is an
+    integer is written as `total/1`, which is all that version's notation can hold - equal value suffices"""
+    U = mods()["U"]
+    if not isinstance(a, U.FractionalSymbolicDuration) or not isinstance(b, U.FractionalSymbolicDuration):
+        return False
+    part = obj
+    if "." in name:
+        part = getattr(obj, name.split(".")[0])
+        name = name.split(".")[1]
+    if getattr(part, "format_fun", {}).get(name) is not U.format_fractional_rational:
+        return False
+    return (a.add_components is not None and int(a.denominator) == 1 and a.tuple_div is None
+            and frac_value(a) == frac_value(b))
+
+
 def call(fn, *a, **kw):
     buf = io.StringIO()
     try:
@@ -489,6 +524,10 @@ def g_frac(rng, big=False):
 
 
 def g_float(rng, dec):
+    return _g_float(rng, dec) + 0.0  # never -0.0 (its sign is not part of the value the model carries)
+
+
+def _g_float(rng, dec):
     """float for a field formatted with `dec` decimals (dec None = repr): mostly representable, some boundaries"""
     r = rng.random()
     sign = rng.choice([1, 1, 1, -1])
@@ -743,6 +782,10 @@ def cases(rng, tier):
         keep = [l for i, l in enumerate(lines) if i < 14 or i % step == 0]
         for l in keep:
             yield {"k": "file", "file": os.path.basename(fn), "first": lines[0], "line": l}
+    # version strings (current "major.minor.patch" and the pre-1.0 "minor.patch")
+    for vs in ["1.0.0", "0.5.0", "0.4.0", "0.3.0", "0.1.0", "5.0", "4.0", "3.0", "2.0", "1.0", "0.3", "10.2.33", "1.0.0rc1",
+               "5.0 ", "x", "", "1", "1.", "1.a"]:
+        yield {"k": "ver", "s": vs}
     # dispatch of malformed / foreign lines
     for l in ["", "wrong_line", "snote(", "note(a,b)", "info(a)", "info(piece,x)", "sustain(1,2)", "soft(a,b).",
               "snote(n1,[B,n],3,0:1,0,1/8,-0.5,0.0,[v1])-note(n0,59,1,2,44,1,0).",
@@ -765,6 +808,21 @@ def float_dec(obj_part, fn):
     m_ = re.fullmatch(r"0\.(\d+)", s)
     if m_ and len(m_.group(1)) < 9:
         return len(m_.group(1))
+    return None
+
+
+def spec_dec(ver, part, fn):
+    """decimals the FORMAT prescribes for a float field (from the format's definition, not from the code):
+    1.0.0 writes every beat time / second value with four decimals; versions < 0.3.0 write score beats with
+    five and performed times with two decimals; the other pre-1.0 floats are written in full (None)"""
+    ver = tuple(ver)
+    if ver >= (1, 0, 0):
+        return 4
+    if ver < (0, 3, 0):
+        if part == "snote." or (part == "" and fn in ("OnsetInBeats", "OffsetInBeats")):
+            return 5
+        if part == "note." or (part == "" and fn in ("Onset", "Offset")):
+            return 2
     return None
 
 
@@ -792,7 +850,7 @@ def eval_line(d):
         for _, v in flds:
             toks += wire_val(v)
         ev.requests.append("fmt %s %d %s" % (tpl, len(flds), " ".join(toks)))
-        ev.impl.append("err" if e1 else W.s(line))
+        ev.impl.append("err" if e1 else ws(line))
     if e1 is not None:
         ev.oracle.append("format: %s %s: writing the line raised %s: %s" % (kind, ver, type(e1).__name__, e1))
         ev.key = None
@@ -800,14 +858,14 @@ def eval_line(d):
     cls = cls_of(kind, ver)
     back, e2 = call(cls.from_matchline, line, version=U.Version(*ver))
     if modelled:
-        ev.requests.append("parse %s %s" % (tpl, W.s(line)))
+        ev.requests.append("parse %s %s" % (tpl, ws(line)))
         ev.impl.append(errtok(e2) if e2 else canon_fields(back))
     # which float fields are exactly representable with the decimals printed
     exact = True
     for pre, o in parts_of(obj):
         for fn in o.field_names:
             v = getattr(o, fn)
-            if isinstance(v, float) and not representable(v, float_dec(o, fn)):
+            if isinstance(v, float) and not representable(v, spec_dec(ver, pre, fn)):
                 exact = False
     if e2 is not None:
         ev.oracle.append("parse: %s %s: parsing the written line %r raised %s: %s" % (kind, ver, line, type(e2).__name__, e2))
@@ -816,8 +874,8 @@ def eval_line(d):
             ev.oracle.append("kind: %s %s: %r parsed as %s" % (kind, ver, line, kind_of(back)))
         line2, e3 = call(lambda: back.matchline)
         if modelled:
-            ev.requests.append("refmt %s %s" % (tpl, W.s(line)))
-            ev.impl.append("err" if e3 else W.s(line2))
+            ev.requests.append("refmt %s %s" % (tpl, ws(line)))
+            ev.impl.append("err" if e3 else ws(line2))
         if e3 is not None:
             ev.oracle.append("reformat: %s %s: writing the parsed line of %r raised %s: %s" % (kind, ver, line, type(e3).__name__, e3))
         else:
@@ -827,7 +885,7 @@ def eval_line(d):
                     ev.oracle.append("fields: %s %s: field names differ after parsing %r" % (kind, ver, line))
                 else:
                     for (n, a), (_, b) in zip(flds, bf):
-                        if not values_equal(a, b):
+                        if not values_equal(a, b) and not rational_total(obj, n, a, b):
                             ev.oracle.append("fields: %s %s: field %s = %s parsed back from %r as %s" % (
                                 kind, ver, n, canon(a), line, canon(b)))
                 if line2 != line:
@@ -847,7 +905,7 @@ def eval_line(d):
     if top:
         got, e6 = call(m["IM"].parse_matchline, line, methods, U.Version(*ver))
         if modelled:
-            ev.requests.append("dispatch %d.%d.%d %s" % (ver + (W.s(line),)))
+            ev.requests.append("dispatch %d.%d.%d %s" % (ver + (ws(line),)))
             ev.impl.append("none" if got is None else kind_of(got) + " " + canon_fields(got))
         if got is None or kind_of(got) != kind:
             ev.oracle.append("dispatch: %s %s: parse_matchline(%r) gives %s" % (
@@ -873,7 +931,7 @@ def eval_tov1(ev, d, obj, tpl, flds, modelled):
         for _, v in flds:
             toks += wire_val(v)
         ev.requests.append("tov1 %s %d %s" % (tpl, len(flds), " ".join(toks)))
-        ev.impl.append("none" if e2 else kind_of(new) + " " + W.s(line))
+        ev.impl.append("none" if e2 else kind_of(new) + " " + ws(line))
     if kind == "info":
         attr = d["f"]["Attribute"]
         has = (attr in m["M1"].INFO_LINE[m["U"].Version(1, 0, 0)] or attr in m["M1"].INFO_ATTRIBUTE_EQUIVALENCES
@@ -964,8 +1022,8 @@ def eval_frac(d):
         ok = model_ok_value(x)
         if ok:
             ev.requests.append("fracstr %s" % " ".join(wire_frac(x)))
-            ev.impl.append(W.s(s))
-            ev.requests.append("fracparse %s" % W.s(s))
+            ev.impl.append(ws(s))
+            ev.requests.append("fracparse %s" % ws(s))
             ev.impl.append("err:value" if e else canon(y))
         if e is not None:
             ev.oracle.append("frac string: %r (from %s) does not parse: %s" % (s, canon(x), e))
@@ -992,8 +1050,8 @@ def eval_frac(d):
             ev.impl.append(canon(c))
         if fits and frac_value(c) != exact:
             ev.oracle.append("frac add: value(%s + %s) = %s, exact sum is %s" % (canon(a), canon(b), frac_value(c), exact))
-        if fits and fold_fits(c.add_components or []):
-            s = str(c)
+        if fits and fold_fits(c.add_components or []) and len(c.add_components or []) > 0:
+            s = str(c)  # (a sum of zero durations has no components left and is written as the empty text)
             y, e2 = call(U.FractionalSymbolicDuration.from_string, s)
             if e2 is not None or frac_value(y) != frac_value(c) or str(y) != s:
                 ev.oracle.append("frac add string: %s -> %r -> %s" % (canon(c), s, e2 or canon(y)))
@@ -1021,13 +1079,13 @@ def eval_key(d):
           "v0.1.0": U.format_key_signature_v0_1_0}[fmt]
     s, e = call(fn, ks)
     ev.requests.append("keystr %s %d %s" % (fmt, f, mode))
-    ev.impl.append("err" if e else W.s(s))
+    ev.impl.append("err" if e else ws(s))
     exp = key_name(f, mode, fmt)
     if e is not None or s != exp:
         ev.oracle.append("key name: (%d,%s) in %s spelling is written %r, expected %r" % (f, mode, fmt, e or s, exp))
         return ev
     back, e2 = call(U.MatchKeySignature.from_string, s)
-    ev.requests.append("keyparse %s" % W.s(s))
+    ev.requests.append("keyparse %s" % ws(s))
     ev.impl.append("err:value" if e2 else canon(back))
     if e2 is not None:
         ev.oracle.append("key name: %r (%d,%s) does not parse: %s" % (s, f, mode, e2))
@@ -1046,8 +1104,11 @@ def eval_file(d):
     m = mods()
     U, IM = m["U"], m["IM"]
     ver = IM.get_version(d["first"])
-    ev.requests.append("version %s" % W.s(d["first"]))
+    ev.requests.append("version %s" % ws(d["first"]))
     ev.impl.append(canon(ver))
+    mv = re.match(r"info\(matchFileVersion,([^)]*)\)\.", d["first"])
+    if mv and expected_version(mv.group(1)) is not None and tuple(ver) != expected_version(mv.group(1)):
+        ev.oracle.append("version: first line %r gives version %s" % (d["first"], tuple(ver)))
     methods = IM.FROM_MATCHLINE_METHODSV1 if ver >= U.Version(1, 0, 0) else IM.FROM_MATCHLINE_METHODSV0
     line = d["line"]
     obj, e = call(IM.parse_matchline, line, methods, ver)
@@ -1055,22 +1116,22 @@ def eval_file(d):
     vs = "%d.%d.%d" % tuple(ver)
     if obj is None:
         if latin:
-            ev.requests.append("dispatch %s %s" % (vs, W.s(line)))
+            ev.requests.append("dispatch %s %s" % (vs, ws(line)))
             ev.impl.append("none")
         # a line no parser accepts is not a line object: nothing to demand (the model must agree that it is rejected)
         return ev
     kind = kind_of(obj)
     modelled = latin and all(model_ok_value(v) for _, v in fields_of(obj))
     if modelled:
-        ev.requests.append("dispatch %s %s" % (vs, W.s(line)))
+        ev.requests.append("dispatch %s %s" % (vs, ws(line)))
         ev.impl.append(kind + " " + canon_fields(obj))
     l1, e1 = call(lambda: obj.matchline)
     if e1 is not None:
         ev.oracle.append("file: %s line %r cannot be written again: %s" % (kind, line, e1))
         return ev
     if modelled:
-        ev.requests.append("refmt %s %s" % (tplname(kind, tuple(ver)), W.s(line)))
-        ev.impl.append(W.s(l1))
+        ev.requests.append("refmt %s %s" % (tplname(kind, tuple(ver)), ws(line)))
+        ev.impl.append(ws(l1))
     o2, e2 = call(IM.parse_matchline, l1, methods, ver)
     if o2 is None or kind_of(o2) != kind:
         ev.oracle.append("file: %r written as %r is read back as %s" % (line, l1, None if o2 is None else kind_of(o2)))
@@ -1096,14 +1157,46 @@ def eval_dispatch(d):
     ver = tuple(d["ver"])
     methods = IM.FROM_MATCHLINE_METHODSV1 if ver >= (1, 0, 0) else IM.FROM_MATCHLINE_METHODSV0
     got, e = call(IM.parse_matchline, d["line"], methods, U.Version(*ver))
-    ev.requests.append("dispatch %d.%d.%d %s" % (ver + (W.s(d["line"]),)))
+    ev.requests.append("dispatch %d.%d.%d %s" % (ver + (ws(d["line"]),)))
     ev.impl.append("none" if got is None else kind_of(got) + " " + canon_fields(got))
     ev.key = None
     return ev
 
 
+def expected_version(s):
+    """the version a version string denotes, read independently of the implementation"""
+    m3 = re.match(r"(\d+)\.(\d+)\.(\d+)", s)
+    if m3:
+        return tuple(int(x) for x in m3.groups())
+    m2 = re.match(r"(\d+)\.(\d+)", s)
+    if m2:
+        return (0, int(m2.group(1)), int(m2.group(2)))
+    return None
+
+
+def eval_ver(d):
+    ev = Eval()
+    U = mods()["U"]
+    got, e = call(U.interpret_version, d["s"])
+    ev.requests.append("verparse %s" % ws(d["s"]))
+    ev.impl.append("err:value" if e else canon(got))
+    exp = expected_version(d["s"])
+    if exp is not None:
+        if e is not None or tuple(got) != exp:
+            ev.oracle.append("version: %r is read as %s, it denotes %s" % (d["s"], e or tuple(got), exp))
+        else:
+            s2 = U.format_version(got)
+            back, e2 = call(U.interpret_version, s2)
+            if e2 is not None or tuple(back) != exp:
+                ev.oracle.append("version: %r written as %r is read back as %s" % (d["s"], s2, e2 or tuple(back)))
+        ev.key = "ver|" + d["s"]
+    return ev
+
+
 def evaluate(d):
     k = d["k"]
+    if k == "ver":
+        return eval_ver(d)
     if k == "line":
         ev = eval_line(d)
     elif k == "frac":
@@ -1179,5 +1272,5 @@ def unmodelled_templates():
         src = open(p).read()
     except OSError:
         return "Gen/MatchTemplates.lean missing"
-    m_ = re.search(r"unmodelled templates: (.*)", src)
+    m_ = re.search(r"unmodelled templates: (.*?)(?: -/)?$", src, re.M)
     return m_.group(1) if m_ else "?"
